@@ -10,8 +10,11 @@ so tiling is read from the TIFF tile tags).
 """
 from __future__ import annotations
 
+import copy
+import hashlib
 import io
 import logging
+import math
 import os
 import shutil
 import tempfile
@@ -29,7 +32,9 @@ PROPERTY = "C15"
 LEVEL = "exploration"
 
 import rasterio  # noqa: E402
-from rasterio._env import get_gdal_config  # noqa: E402
+import rasterio._err  # noqa: E402
+import rasterio.errors  # noqa: E402
+from rasterio._env import del_gdal_config, get_gdal_config  # noqa: E402
 import tifffile  # noqa: E402
 
 from odc.geo.cog import to_cog, write_cog, write_cog_layers  # noqa: E402
@@ -38,7 +43,10 @@ from odc.geo.geobox import GeoBox  # noqa: E402
 from odc.geo.xr import wrap_xr, xr_coords  # noqa: E402
 
 READDIR = "GDAL_DISABLE_READDIR_ON_OPEN"
-os.environ.pop(READDIR, None)  # the ambient GDAL configuration is a dimension of s8; everywhere else it is GDAL's default
+os.environ.pop(READDIR, None)  # the ambient GDAL configuration is a dimension of s8/s8b; everywhere else it is GDAL's default
+# options the writers set themselves (through rasterio.Env): whatever the caller had must be back after every call
+AMBIENT_OPTS = (READDIR, "GDAL_TIFF_OVR_BLOCKSIZE", "GDAL_NUM_THREADS", "NUM_THREADS")
+BASE_ENVIRON = {k: os.environ.get(k) for k in AMBIENT_OPTS}
 
 logging.getLogger("tifffile").setLevel(logging.CRITICAL)
 logging.getLogger("rasterio").setLevel(logging.CRITICAL)
@@ -68,11 +76,51 @@ def transform_for(tkind, geographic):
         return Affine.translation(x0, y0) * Affine.rotation(30) * Affine.scale(s, -s), False
     if tkind == "shear":
         return Affine(s, s / 4, x0, s / 8, -s, y0), True
+    # --- s12: orientations, pixel-size extremes, origins, near-aligned transforms ------------------------
+    if tkind == "south-up":
+        return Affine(s, 0.0, x0, 0.0, s, y0), True
+    if tkind == "mirror-x":
+        return Affine(-s, 0.0, x0, 0.0, -s, y0), True
+    if tkind == "rot180":  # both axes mirrored at once
+        return Affine(-s, 0.0, x0, 0.0, s, y0), True
+    if tkind == "nonsquare":
+        return Affine(s, 0.0, x0, 0.0, -1.5 * s, y0), True
+    if tkind == "tiny":  # 4.5e-6 deg (0.5 m) / 1/1024 m pixels
+        if geographic:
+            return Affine(4.5e-6, 0.0, rx0, 0.0, -4.5e-6, ry0), False
+        return Affine(1 / 1024, 0.0, x0, 0.0, -1 / 1024, y0), True
+    if tkind == "huge":
+        if geographic:
+            return Affine(15.0, 0.0, -180.0, 0.0, -15.0, 90.0), True
+        return Affine(1e5, 0.0, -2e7, 0.0, -1e5, 1e7), True
+    if tkind == "halfpx":  # origin half a pixel off whole numbers
+        return Affine(s, 0.0, x0 + s / 2, 0.0, -s, y0 + s / 2), True
+    if tkind == "near-int":  # origin within 1e-3 CRS units of a whole number
+        return Affine(s, 0.0, x0 + 0.0005, 0.0, -s, y0 - 0.0005), False
+    if tkind == "offgrid":  # origin not a whole number of pixels from 0
+        return Affine(s, 0.0, x0 + s / 3, 0.0, -s, y0 - s / 7), False
+    if tkind == "scale-below-1":
+        return Affine(0.9991, 0.0, x0, 0.0, -0.9991, y0), False
+    if tkind == "rot0.05":  # below a pixel per 1000 px, more than a pixel over a 2000 px raster
+        return Affine.translation(x0, y0) * Affine.rotation(0.05) * Affine.scale(s, -s), False
+    if tkind == "shear9e-4":
+        return Affine(s, 9e-4 * s, x0, 0.0, -s, y0), False
+    if tkind == "near-aligned-out":  # shear just outside the library's 1e-10 'axis aligned' window, tiny pixels
+        return Affine(4.5e-6, 1.1e-10, rx0, 0.0, -4.5e-6, ry0), False
+    if tkind == "near-aligned-in":  # just inside that window
+        return Affine(4.5e-6, 0.9e-10, rx0, 0.0, -4.5e-6, ry0), False
     raise ValueError(tkind)
 
 
+FIRST = ("SYX", "TYX")
+
+
 def tclass(tkind):
-    return "north-up" if tkind.startswith("nu") else "non-aligned"
+    if tkind in ("nu", "nu-r"):
+        return "north-up"
+    if tkind in ("rot", "shear"):
+        return "non-aligned"
+    return tkind
 
 
 def shape_class(yx):
@@ -87,18 +135,18 @@ def shape_class(yx):
 
 
 def layout_shape(yx, layout):
-    """layout: 'YX' | ('SYX', n) band-first | ('YXS', n) band-last"""
+    """layout: 'YX' | ('SYX', n) band-first | ('TYX', n) time-first | ('YXS', n) band-last"""
     if layout == "YX":
         return tuple(yx)
     kind, n = layout
-    return (n, *yx) if kind == "SYX" else (*yx, n)
+    return (n, *yx) if kind in FIRST else (*yx, n)
 
 
 def layout_class(yx, layout):
     if layout == "YX":
         return "YX"
     kind, n = layout
-    base = "band-first" if kind == "SYX" else "band-last"
+    base = "band-first" if kind == "SYX" else "time-first" if kind == "TYX" else "band-last"
     if n > 1 and n == yx[0] == yx[1]:
         base += "-cube"
     return base
@@ -117,10 +165,12 @@ def nodata_for(dtype, kind):
     if kind == "nan":
         return float("nan")
     if dt.kind == "u":
-        return int(np.iinfo(dt).max)
+        return int(np.iinfo(dt).max) if dt.itemsize < 8 else 2**32
     if dt.kind == "i":
         return -128 if dt.itemsize == 1 else -9999
-    return -9999.0 if dt.itemsize == 4 else 1.5e300
+    if dt.kind != "f":
+        return None  # complex / bool: no nodata
+    return {2: -1000.0, 4: -9999.0, 8: 1.5e300}[dt.itemsize]
 
 
 def make_data(shape, dtype, off=0, nodata=None):
@@ -130,7 +180,12 @@ def make_data(shape, dtype, off=0, nodata=None):
     dt = np.dtype(dtype)
     mod = 113 if dt.itemsize == 1 else 251
     a = ((np.arange(n, dtype="int64") * 7 + off) % mod + 1).reshape(shape)
-    a = (a + 0.25).astype(dt) if dt.kind == "f" else a.astype(dt)
+    if dt.kind == "c":
+        a = (a + 0.5j).astype(dt)
+    elif dt.kind == "b":
+        a = a % 3 == 0
+    else:
+        a = (a + 0.25).astype(dt) if dt.kind == "f" else a.astype(dt)
     if nodata is not None and n > 1:
         a.flat[n - 1] = nodata
     return a
@@ -157,32 +212,96 @@ def punch_zeros(v):
                 v[:, y, x] = 0
 
 
+def apply_pattern(v, pattern, nodata):
+    """v: (bands, y, x) view. 'all-nodata': nothing but nodata (0 when none is set); 'sprinkle': isolated nodata pixels,
+    a whole 16x16 tile of nodata, and (floats) NaN pixels next to a non-NaN nodata."""
+    _, h, w = v.shape
+    fill = 0 if nodata is None else nodata
+    if pattern == "all-nodata":
+        v[...] = fill
+    elif pattern == "sprinkle":
+        for y, x in ((0, 0), (h // 2, w // 3), (h - 1, w - 1), (h // 3, w - 1)):
+            v[:, y, x] = fill
+        if h >= 32 and w >= 32:
+            v[:, 16:32, 16:32] = fill
+        if v.dtype.kind == "f":
+            v[:, h // 2, w // 2] = np.nan
+            v[0, 0, w - 1] = np.nan
+    elif pattern not in (None, "ramp"):
+        raise ValueError(pattern)
+
+
 def bands_of(data, layout):
     if layout == "YX":
         return data[np.newaxis]
-    return data if layout[0] == "SYX" else np.moveaxis(data, -1, 0)
+    return data if layout[0] in FIRST else np.moveaxis(data, -1, 0)
 
 
-def build(yx, layout, dtype, tkind="nu", crs="32633", ndkind="none", nd_src="attr", off=0, zeros=False):
-    """-> (DataArray, raw data, transform, exact, epsg, wanted nodata, extra kwargs for the writer)"""
-    crs_str, epsg, geographic = CRSS[crs]
-    A, exact = transform_for(tkind, geographic)
-    gbox = GeoBox(tuple(yx), A, crs_str)
+LAEA = "+proj=laea +lat_0=10 +lon_0=20 +datum=WGS84 +units=m +no_defs"  # a CRS without an EPSG code
+CRS_SPECS = ("str", "int", "lower", "wkt", "json", "pyproj", "odc", "laea")
+
+
+def crs_spec(crs, spec):
+    """The same CRS handed to GeoBox in another encoding -> (value for GeoBox, expected: EPSG code or proj string)"""
+    import pyproj  # pylint: disable=import-outside-toplevel
+    from odc.geo.crs import CRS as OCRS  # pylint: disable=import-outside-toplevel
+
+    crs_str, epsg, _ = CRSS[crs]
+    if spec == "str":
+        return crs_str, epsg
+    if spec == "int":
+        return epsg, epsg
+    if spec == "lower":
+        return crs_str.lower(), epsg
+    if spec == "wkt":
+        return pyproj.CRS.from_epsg(epsg).to_wkt(), epsg
+    if spec == "json":
+        return pyproj.CRS.from_epsg(epsg).to_json_dict(), epsg
+    if spec == "pyproj":
+        return pyproj.CRS.from_epsg(epsg), epsg
+    if spec == "odc":
+        return OCRS(crs_str), epsg
+    if spec == "laea":
+        return LAEA, LAEA
+    raise ValueError(spec)
+
+
+def encode_nodata(v, enc, dtype):
+    """Same value, other encoding: python number / numpy scalar of the array dtype / python float."""
+    if v is None or enc == "py":
+        return v
+    if enc == "np":
+        return np.dtype(dtype).type(v)
+    if enc == "float":
+        return float(v)
+    raise ValueError(enc)
+
+
+def build(yx, layout, dtype, tkind="nu", crs="32633", ndkind="none", nd_src="attr", off=0, zeros=False, pattern=None,
+          spec="str", nd_enc="py"):
+    """-> (DataArray, raw data, transform, exact, expected CRS (EPSG code or proj string), wanted nodata, writer kwargs)"""
+    crs_val, epsg = crs_spec(crs, spec)
+    A, exact = transform_for(tkind, CRSS[crs][2] and spec != "laea")
+    gbox = GeoBox(tuple(yx), A, crs_val)
     nodata = nodata_for(dtype, ndkind)
     data = make_data(layout_shape(yx, layout), dtype, off, nodata)
     if zeros:
         punch_zeros(bands_of(data, layout))
+    apply_pattern(bands_of(data, layout), pattern, nodata)
     attrs = {}
     kw = {}
     if nodata is not None:
+        nd_given = encode_nodata(nodata, nd_enc, dtype)
         if nd_src == "attr":
-            attrs["nodata"] = nodata
+            attrs["nodata"] = nd_given
         elif nd_src == "kwarg":
-            kw["nodata"] = nodata
+            kw["nodata"] = nd_given
         else:  # both: documented precedence - the explicit argument wins over the attribute
             attrs["nodata"] = 1
-            kw["nodata"] = nodata
-    if layout == "YX" or layout[0] == "YXS":
+            kw["nodata"] = nd_given
+    if layout != "YX" and layout[0] == "TYX":
+        xx = wrap_xr(data, gbox, time=[f"2020-01-{i + 1:02d}" for i in range(layout[1])], **attrs)  # dims (time, y, x)
+    elif layout == "YX" or layout[0] == "YXS":
         xx = wrap_xr(data, gbox, **attrs)  # dims (y, x) / (y, x, band)
     else:
         ydim, xdim = gbox.dimensions
@@ -190,7 +309,7 @@ def build(yx, layout, dtype, tkind="nu", crs="32633", ndkind="none", nd_src="att
     return xx, data, A, exact, epsg, nodata, kw
 
 
-def sub_overviews(xx, layout, dtype, n_ovr, zeros=False):
+def sub_overviews(xx, layout, dtype, n_ovr, zeros=False, pattern=None, nodata=None):
     """Externally supplied overviews: the geo-registered array strided by 2, 4, ... with content that differs from
     any resampling of the image (so a regenerated overview would be noticed)."""
     out = []
@@ -198,13 +317,14 @@ def sub_overviews(xx, layout, dtype, n_ovr, zeros=False):
         st = 2**k
         if layout == "YX":
             o = xx[::st, ::st]
-        elif layout[0] == "SYX":
+        elif layout[0] in FIRST:
             o = xx[:, ::st, ::st]
         else:
             o = xx[::st, ::st, :]
         od = make_data(o.shape, dtype, off=17 * k + 3)
         if zeros:
             punch_zeros(bands_of(od, layout))
+        apply_pattern(bands_of(od, layout), pattern, nodata)
         o = o.copy(data=od)
         o.attrs.update(xx.attrs)
         out.append(o)
@@ -252,12 +372,21 @@ def open_tiff(blob):
             yield tf
 
 
-def transform_matches(got, want, exact):
-    g, w = tuple(got)[:6], tuple(want)[:6]
+def transform_matches(got, want, exact, shape):
+    """D alphabet: ==. R alphabet: the four image corners must land within 16 ulp of the largest corner coordinate plus
+    1e-9 of the smaller pixel side (binary64 rounding of the coordinate labels, nothing that scales with the magnitude)."""
+    g, w = Affine(*tuple(got)[:6]), Affine(*tuple(want)[:6])
     if exact:
-        return g == w
-    pix = max(abs(w[0]), abs(w[1]), abs(w[3]), abs(w[4]))
-    return all(abs(a - b) <= 1e-9 * (abs(b) + pix) for a, b in zip(g, w))
+        return tuple(g)[:6] == tuple(w)[:6], 0.0
+    H, W = shape
+    pix = min(math.hypot(w.a, w.d), math.hypot(w.b, w.e))
+    worst = cmax = 0.0
+    for x, y in ((0, 0), (W, 0), (0, H), (W, H)):
+        gx, gy = g * (x, y)
+        wx, wy = w * (x, y)
+        worst = max(worst, abs(gx - wx), abs(gy - wy))
+        cmax = max(cmax, abs(wx), abs(wy))
+    return worst <= 16 * math.ulp(cmax) + 1e-9 * pix, worst / pix
 
 
 def same_nodata(got, want):
@@ -270,7 +399,7 @@ def same_nodata(got, want):
     return float(got) == float(want)
 
 
-def inspect(blob, want_bands, A, exact, epsg, nodata, levels, blocksize, r: R, what, cls, ext_overviews=None):
+def inspect(blob, want_bands, A, exact, epsg, nodata, levels, blocksize, r: R, what, cls, ext_overviews=None, ovr_blocksize=None):
     """All clauses of the property on one written file / byte string.
 
     cls: dict of input classes used in finding keys: pix (layout + api), geo (transform class + shape class + path),
@@ -297,12 +426,16 @@ def inspect(blob, want_bands, A, exact, epsg, nodata, levels, blocksize, r: R, w
             r.fail(f"decode:{kind}:{cls['pix']}",
                    f"{what}: {len(bad)} of {got.size} pixels differ (band order / values), first at band,y,x={b0}: "
                    f"read {got[b0]!r}, written {want_bands[b0]!r}")
-        if not transform_matches(src.transform, A, exact):
+        t_ok, t_px = transform_matches(src.transform, A, exact, (H, W))
+        if not t_ok:
             r.fail(f"georef:transform:{cls['geo']}",
                    f"{what}: file transform {tuple(src.transform)[:6]}, GeoBox transform {tuple(A)[:6]}"
-                   f" ({'exact' if exact else '1e-9 relative'} comparison)")
-        if src.crs is None or src.crs.to_epsg() != epsg:
-            r.fail(f"georef:crs:{cls['crs']}", f"{what}: file CRS {src.crs}, expected EPSG:{epsg}")
+                   f" ({'exact comparison' if exact else 'image corners displaced by %.3g px; 16 ulp + 1e-9 px allowed' % t_px})")
+        if isinstance(epsg, int):
+            if src.crs is None or src.crs.to_epsg() != epsg:
+                r.fail(f"georef:crs:{cls['crs']}", f"{what}: file CRS {src.crs}, expected EPSG:{epsg}")
+        elif src.crs is None or src.crs != rasterio.crs.CRS.from_string(epsg):  # GDAL's own OSRIsSame on a fresh object
+            r.fail(f"georef:crs:{cls['crs']}", f"{what}: file CRS {src.crs}, expected {epsg}")
         if not all(same_nodata(v, nodata) for v in (src.nodata, *src.nodatavals)):
             r.fail(f"georef:nodata:{cls['nd']}", f"{what}: file nodata {src.nodatavals}, requested {nodata!r}")
         gdal_ovr = [src.overviews(i) for i in src.indexes]
@@ -334,9 +467,19 @@ def inspect(blob, want_bands, A, exact, epsg, nodata, levels, blocksize, r: R, w
         p0 = pages[0]
         if p0.is_tiled and bs % 16 == 0:
             for ax, dim, t in (("y", H, p0.tilelength), ("x", W, p0.tilewidth)):
-                if dim >= bs and t != bs:
+                if dim >= bs > 0 and t != bs:
                     r.fail(f"layout:tile-size-not-as-requested:{ax}:{cls['st']}",
                            f"{what}: blocksize={bs}, image {ax} size {dim}, tile {ax} size {t}")
+        # documented parameter: "ovr_blocksize: Size of internal tiles in overview images (defaults to blocksize)" - demanded
+        # where GDAL accepts the value as it is (a power of two in [64, 4096]; other values make GDAL fall back to its own)
+        obs = bs if ovr_blocksize is None else ovr_blocksize
+        if isinstance(obs, (int, np.integer)) and 64 <= obs <= 4096 and obs & (obs - 1) == 0:
+            for pi, p in enumerate(pages[1:], 1):
+                if p.is_tiled and (p.tilelength, p.tilewidth) != (obs, obs):
+                    r.fail(f"layout:ovr-tile-size-not-as-requested:{cls['st']}",
+                           f"{what}: overview tile size {obs} requested (ovr_blocksize={ovr_blocksize}, blocksize={blocksize}), "
+                           f"IFD {pi} has tiles {(p.tilelength, p.tilewidth)}")
+                    break
     # --- externally supplied overviews are the ones stored ------------------------------------------------
     if ext_overviews:
         for k, wo in enumerate(ext_overviews):
@@ -359,76 +502,172 @@ def inspect(blob, want_bands, A, exact, epsg, nodata, levels, blocksize, r: R, w
                        f"{int((g != wo).sum()) if g.shape == wo.shape else 'all'} values differ")
 
 
+def gdal_state():
+    return tuple((k, get_gdal_config(k, normalize=False), os.environ.get(k)) for k in AMBIENT_OPTS)
+
+
+def scrub_gdal():
+    """Back to the state this worker started with (used after a reported leak, so that later cases are not poisoned)."""
+    for k in AMBIENT_OPTS:
+        if BASE_ENVIRON[k] is None:
+            os.environ.pop(k, None)
+        else:
+            os.environ[k] = BASE_ENVIRON[k]
+        if not rasterio.env.hasenv():
+            del_gdal_config(k)
+
+
+BASE_STATE = gdal_state()
+
+
 @contextmanager
-def ambient_env(v):
-    """Ambient GDAL configuration in force while the writer runs (an outer rasterio.Env, as a caller tuned for cloud
-    reads would have). Asserts that the setting is really seen by GDAL inside and is gone again outside, so it can
-    neither be ineffective nor leak into the reader or into later cases of the same worker."""
-    if get_gdal_config(READDIR, normalize=False) is not None or rasterio.env.hasenv():
-        raise RuntimeError(f"GDAL environment not pristine before the case: {get_gdal_config(READDIR, normalize=False)!r}")
-    if v == "unset":
+def ambient_env(spec):
+    """Ambient GDAL configuration chosen by the CALLER and in force while the writer runs: "unset", a value for
+    GDAL_DISABLE_READDIR_ON_OPEN (outer rasterio.Env), or (option, value, "env" | "environ") - an outer rasterio.Env or the
+    process environment. Asserts that GDAL really sees the setting; it is gone again outside, so it can neither be
+    ineffective nor leak into the readers or into later cases of the same worker."""
+    if gdal_state() != BASE_STATE or rasterio.env.hasenv():
+        scrub_gdal()  # an earlier case leaked (and reported it)
+        if gdal_state() != BASE_STATE or rasterio.env.hasenv():
+            raise RuntimeError(f"cannot restore a pristine GDAL configuration: {gdal_state()} vs {BASE_STATE}")
+    if spec == "unset":
         yield
-    else:
-        with rasterio.Env(**{READDIR: v}):
-            if get_gdal_config(READDIR, normalize=False) != v:
-                raise RuntimeError(f"ambient {READDIR}={v} not in force: {get_gdal_config(READDIR, normalize=False)!r}")
+        return
+    opt, val, how = (READDIR, spec, "env") if isinstance(spec, str) else spec
+    if how == "environ":
+        del_gdal_config(opt)  # rasterio re-instates the previous value as an explicit option when its outermost Env exits
+        os.environ[opt] = val
+        try:
+            if get_gdal_config(opt, normalize=False) != val:
+                raise RuntimeError(f"ambient {opt}={val} (environment) not in force: {get_gdal_config(opt, normalize=False)!r}")
             yield
-            if get_gdal_config(READDIR, normalize=False) != v:
-                raise RuntimeError(f"ambient {READDIR}={v} was not restored by the writer: "
-                                   f"{get_gdal_config(READDIR, normalize=False)!r}")
-    if get_gdal_config(READDIR, normalize=False) is not None or rasterio.env.hasenv():
-        raise RuntimeError(f"ambient {READDIR} leaked out of the case: {get_gdal_config(READDIR, normalize=False)!r}")
+        finally:
+            scrub_gdal()
+    else:
+        with rasterio.Env(**{opt: val}):
+            if get_gdal_config(opt, normalize=False) != val:
+                raise RuntimeError(f"ambient {opt}={val} not in force: {get_gdal_config(opt, normalize=False)!r}")
+            yield
+    if gdal_state() != BASE_STATE or rasterio.env.hasenv():
+        scrub_gdal()
+
+
+def deep_same(a, b):
+    """Structural equality that treats NaN == NaN and compares arrays by content and dtype."""
+    if isinstance(a, np.ndarray) or isinstance(b, np.ndarray):
+        return (isinstance(a, np.ndarray) and isinstance(b, np.ndarray) and a.dtype == b.dtype and a.shape == b.shape
+                and bool(np.array_equal(a, b, equal_nan=a.dtype.kind in "fc")))
+    if type(a) is not type(b):
+        return False
+    if isinstance(a, dict):
+        return list(a) == list(b) and all(deep_same(a[k], b[k]) for k in a)
+    if isinstance(a, (list, tuple)):
+        return len(a) == len(b) and all(deep_same(x, y) for x, y in zip(a, b))
+    if isinstance(a, xr.DataArray):
+        return deep_same(snap(a), snap(b))
+    if isinstance(a, (float, np.floating)) and a != a:
+        return bool(b != b)
+    return bool(a == b)
+
+
+def snap(xx):
+    """Everything a caller can observe about the array it handed in."""
+    return dict(values=np.array(xx.data, copy=True), attrs=copy.deepcopy(dict(xx.attrs)), encoding=copy.deepcopy(dict(xx.encoding)),
+                dims=tuple(xx.dims), name=xx.name,
+                coords={str(k): (np.array(v.values, copy=True), copy.deepcopy(dict(v.attrs)), copy.deepcopy(dict(v.encoding)),
+                                 tuple(v.dims)) for k, v in xx.coords.items()})
+
+
+def changed(before, xx):
+    now = snap(xx)
+    return [k for k in before if not deep_same(before[k], now[k])]
+
+
+def snap_kw(kw):
+    return {k: (snap(v) if isinstance(v, xr.DataArray) else copy.deepcopy(v)) for k, v in kw.items()}
+
+
+def judge_side_effects(r: R, what, tag, inputs, before, kw, kw_before, state_before, state_after):
+    """Clauses that hold for every call: the caller's arrays (values, attrs, encoding, coordinates) and option containers are
+    what they were, and every GDAL option the writer touches is back to what the caller had."""
+    for name, xx in inputs:
+        for k in changed(before[name], xx):
+            r.fail(f"caller-input-modified:{k}:{tag}", f"{what}: {name}.{k} differs after the call")
+    for k, v in kw.items():
+        if not isinstance(v, xr.DataArray) and not deep_same(kw_before[k], v):
+            r.fail(f"caller-input-modified:option-{k}:{tag}", f"{what}: option {k} was {kw_before[k]!r}, is {v!r} after the call")
+    for (k, cfg0, env0), (_, cfg1, env1) in zip(state_before, state_after):
+        if (cfg0, env0) != (cfg1, env1):
+            r.fail(f"ambient:not-restored:{k}:{tag}",
+                   f"{what}: GDAL option {k} was {cfg0!r} (environment {env0!r}) before the call and is {cfg1!r} "
+                   f"(environment {env1!r}) after it")
 
 
 def run_write(r: R, what, xx, data, layout, A, exact, epsg, nd_want, *, dest, api="write_cog", accessor=False,
-              ovl=None, ext=None, blocksize=None, cls=None, ambient="unset", **kw):
+              ovl=None, ext=None, blocksize=None, cls=None, ambient="unset", may_refuse=(), **kw):
     """Write through the real API into memory or a fresh temporary directory (under the ambient GDAL configuration),
-    then judge with readers opened outside that configuration."""
+    then judge with readers opened outside that configuration. Returns False when the writer refused (may_refuse)."""
     yx = bands_of(data, layout).shape[1:]
-    want = bands_of(data, layout)
+    want = bands_of(data, layout).copy()
     ext_b = None
     if ext is not None:
         levels = [bands_of(o.data, layout).shape[1:] for o in ext]
-        ext_b = [bands_of(o.data, layout) for o in ext]
+        ext_b = [bands_of(o.data, layout).copy() for o in ext]
     else:
         levels = expected_levels(yx, ovl)
         if ovl is not None:  # None: argument not given, the documented default applies
             kw["overview_levels"] = list(ovl)
     if blocksize is not None:
         kw["blocksize"] = blocksize
+    inputs = [("geo_im", xx)] + [(f"overviews[{i}]", o) for i, o in enumerate(ext or ())]
+    before = {name: snap(v) for name, v in inputs}
+    kw_before = snap_kw(kw)
     td = None
+    blob = out = None
+    refused = False
     try:
         with ambient_env(ambient):
-            if dest == "mem":
-                if api == "write_cog_layers":
-                    blob = write_cog_layers([xx, *ext], **kw)
-                elif ext is not None:
-                    blob = xx.odc.to_cog(overviews=ext, **kw) if accessor else to_cog(xx, overviews=ext, **kw)
+            state_before = gdal_state()
+            try:
+                if dest == "mem":
+                    if api == "write_cog_layers":
+                        blob = write_cog_layers([xx, *ext], **kw)
+                    elif ext is not None:
+                        blob = xx.odc.to_cog(overviews=ext, **kw) if accessor else to_cog(xx, overviews=ext, **kw)
+                    else:
+                        blob = xx.odc.to_cog(**kw) if accessor else to_cog(xx, **kw)
                 else:
-                    blob = xx.odc.to_cog(**kw) if accessor else to_cog(xx, **kw)
-            else:
-                td = tempfile.mkdtemp(prefix="vf-c15-")
-                path = os.path.join(td, "out.tif")
-                if api == "write_cog_layers":
-                    out = write_cog_layers([xx, *ext], path, **kw)
-                elif ext is not None:
-                    out = xx.odc.write_cog(path, overviews=ext, **kw) if accessor else write_cog(xx, path, overviews=ext, **kw)
-                else:
-                    out = xx.odc.write_cog(path, **kw) if accessor else write_cog(xx, path, **kw)
+                    td = tempfile.mkdtemp(prefix="vf-c15-")
+                    path = os.path.join(td, "out.tif")
+                    if api == "write_cog_layers":
+                        out = write_cog_layers([xx, *ext], path, **kw)
+                    elif ext is not None:
+                        out = xx.odc.write_cog(path, overviews=ext, **kw) if accessor else write_cog(xx, path, overviews=ext, **kw)
+                    else:
+                        out = xx.odc.write_cog(path, **kw) if accessor else write_cog(xx, path, **kw)
+            except may_refuse as e:  # inputs the statement does not call supported: a clean refusal is acceptable
+                r.outcome += f":refused-{type(e).__name__}"
+                refused = True
+            state_after = gdal_state()
+        judge_side_effects(r, what, cls["pix"], inputs, before, kw, kw_before, state_before, state_after)
+        if refused:
+            return False
         # judged outside the ambient configuration: the readers run in GDAL's default environment
         if dest == "mem":
             if not isinstance(blob, bytes):
                 r.fail(f"return:not-bytes:{cls['pix']}", f"{what}: returned {type(blob).__name__}")
-                return
+                return True
         else:
             if out is None or str(out) != path or not os.path.isfile(path):
                 r.fail(f"return:path:{cls['pix']}", f"{what}: returned {out!r}, asked to write {path}")
-                return
+                return True
             blob = path
-        inspect(blob, want, A, exact, epsg, nd_want, levels, blocksize, r, what, cls, ext_overviews=ext_b)
+        inspect(blob, want, A, exact, epsg, nd_want, levels, blocksize, r, what, cls, ext_overviews=ext_b,
+                ovr_blocksize=kw.get("ovr_blocksize"))
     finally:
         if td is not None:
             shutil.rmtree(td, ignore_errors=True)
+    return True
 
 
 def mkcls(yx, layout, tkind="nu", crs="32633", dtype="uint8", ndkind="none", nd_src="attr", path="1pass", api="write_cog",
@@ -450,13 +689,13 @@ def mkcls(yx, layout, tkind="nu", crs="32633", dtype="uint8", ndkind="none", nd_
 S1_SHAPES = ((1, 1), (1, 4), (4, 1), (2, 2), (3, 3), (4, 4), (5, 5), (16, 16), (17, 31), (33, 2), (64, 48))
 S1_MORE = ((1, 2), (2, 1), (1, 17), (17, 1), (2, 3), (6, 6), (7, 7), (31, 17), (48, 64))  # thorough
 S1_LAYOUTS = ("YX", ("SYX", 1), ("SYX", 2), ("SYX", 3), ("SYX", 4), ("SYX", 5), ("YXS", 1), ("YXS", 2), ("YXS", 3),
-              ("YXS", 4), ("YXS", 5))
+              ("YXS", 4), ("YXS", 5), ("TYX", 1), ("TYX", 3), ("TYX", 4))
 TKINDS = ("nu", "nu-r", "rot", "shear")
 
 
 def gen_s1(tier):
     shapes = S1_SHAPES + (S1_MORE if tier == "thorough" else ())
-    layouts = S1_LAYOUTS + ((("SYX", 6), ("SYX", 7), ("YXS", 6), ("YXS", 7)) if tier == "thorough" else ())
+    layouts = S1_LAYOUTS + ((("SYX", 6), ("SYX", 7), ("YXS", 6), ("YXS", 7), ("TYX", 2), ("TYX", 5)) if tier == "thorough" else ())
 
     def g():
         for yx in shapes:
@@ -464,8 +703,8 @@ def gen_s1(tier):
                 for tk in TKINDS:
                     for crs in CRSS:
                         for two_pass in (False, True):
-                            if two_pass and min(yx) < 2:
-                                continue  # GDAL refuses overviews on a 1-pixel side
+                            if two_pass and max(yx) < 2:
+                                continue  # a second 1x1 level is what GDAL refuses (s13)
                             yield ("s1", yx, layout, tk, crs, two_pass)
 
     return g
@@ -531,7 +770,7 @@ def s3_ovls(tier):
 
 
 def gen_s3(tier):
-    inter = ("off", "on", "lzw") if tier == "quick" else tuple(INTERMEDIATE)
+    inter = ("off", "lzw") if tier == "quick" else tuple(INTERMEDIATE)  # True / dict forms: s4b, s9 (quick)
 
     shapes = S3_SHAPES + (S3_MORE if tier == "thorough" else ())
 
@@ -641,30 +880,56 @@ def gen_s5(tier):
             for overwrite in (False, True, None):  # None: argument not given (default False)
                 for ptype in ("str", "Path"):
                     for variant in ("plain", "computed-ovr", "external-ovr", "layers-api"):
-                        for layout in ("YX", ("SYX", 2)):
-                            yield ("s5", exists, overwrite, ptype, variant, layout)
+                        for opts in ("plain", "windowed+intermediate"):
+                            for layout in ("YX", ("SYX", 2)):
+                                yield ("s5", exists, overwrite, ptype, variant, opts, layout)
+        for overwrite in (False, True, None):  # ":mem:" is never an existing destination
+            for variant in ("plain", "computed-ovr", "external-ovr", "layers-api"):
+                for opts in ("plain", "windowed+intermediate"):
+                    for layout in ("YX", ("SYX", 2)):
+                        yield ("s5", "mem", overwrite, "str", variant, opts, layout)
 
     return g
 
 
 def run_s5(case):
-    _, exists, overwrite, ptype, variant, layout = case
+    _, exists, overwrite, ptype, variant, opts, layout = case
     yx = (17, 31)
-    r = R(outcome=f"s5:{exists}:overwrite={overwrite}:{variant}")
-    xx, data, A, exact, epsg, nodata, kw = build(yx, layout, "int16", "nu", "32633", "special", off=5)
+    r = R(outcome=f"s5:{exists}:overwrite={overwrite}:{variant}:{opts}")
+    xx, data, A, exact, epsg, nodata, kw = build(yx, layout, "int16", "nu", "32633", "special", off=5, zeros=True)
+    if opts != "plain":
+        kw.update(use_windowed_writes=True, intermediate_compression=True)
     ext = None
     ovl = ()
     if variant == "computed-ovr":
         ovl = (2,)
         kw["overview_levels"] = [2]
     elif variant in ("external-ovr", "layers-api"):
-        ext = sub_overviews(xx, layout, "int16", 1)
+        ext = sub_overviews(xx, layout, "int16", 1, zeros=True)
     if overwrite is not None:
         kw["overwrite"] = overwrite
     cls = mkcls(yx, layout, "nu", "32633", "int16", "special", "attr", f"{variant}:file", "write_cog", 16, "ext" if ext else ovl)
-    kcls = f"{exists}:{variant}"
+    kcls = f"{exists}:{variant}" + ("" if opts == "plain" else f":{opts}")
     td = tempfile.mkdtemp(prefix="vf-c15-")
     try:
+        if exists == "mem":
+            cwd_before = sorted(os.listdir("."))
+            if variant == "layers-api":
+                out = write_cog_layers([xx, *ext], ":mem:", blocksize=16, **kw)
+            elif ext is not None:
+                out = write_cog(xx, ":mem:", blocksize=16, overviews=ext, **kw)
+            else:
+                out = write_cog(xx, ":mem:", blocksize=16, **kw)
+            if not isinstance(out, bytes):
+                r.fail(f"return:not-bytes:{kcls}", f"{case}: returned {type(out).__name__}")
+                return r
+            if sorted(os.listdir(".")) != cwd_before:
+                r.fail(f"existing:mem-touched-working-directory:{kcls}", f"{case}: {sorted(os.listdir('.'))} vs {cwd_before}")
+            want = bands_of(data, layout)
+            levels = [bands_of(o.data, layout).shape[1:] for o in ext] if ext is not None else expected_levels(yx, ovl)
+            inspect(out, want, A, exact, epsg, nodata, levels, 16, r, str(case), cls,
+                    ext_overviews=[bands_of(o.data, layout) for o in ext] if ext is not None else None)
+            return r
         path = os.path.join(td, "dst.tif")
         before = None
         if exists == "cog":
@@ -716,7 +981,8 @@ def run_s5(case):
 # ---------------------------------------------------------------------------------------------------------
 # s6: default overview levels around the 512-pixel threshold (the only slice with images above 64 px)
 # ---------------------------------------------------------------------------------------------------------
-S6_SHAPES = ((600, 520), (512, 512), (512, 520), (520, 512), (511, 511), (511, 520), (520, 511))
+S6_SHAPES = ((600, 520), (512, 512), (512, 520), (520, 512), (511, 511), (511, 520), (520, 511),
+             (1, 600), (600, 1), (513, 3), (3, 513))  # strips: one side far under, one over 512
 
 
 def gen_s6(tier):
@@ -825,6 +1091,526 @@ def run_s8(case):
 
 
 # ---------------------------------------------------------------------------------------------------------
+# s8b: every GDAL option the writers set themselves, pre-set by the caller (outer Env or process environment)
+# ---------------------------------------------------------------------------------------------------------
+S8B_SPECS = ("unset",) + tuple((opt, val, how) for opt, val in ((READDIR, "EMPTY_DIR"), ("GDAL_TIFF_OVR_BLOCKSIZE", "256"),
+                                                               ("GDAL_NUM_THREADS", "2"), ("NUM_THREADS", "2"))
+                               for how in ("env", "environ"))
+
+
+def gen_s8b(tier):
+    def g():
+        for si, _ in enumerate(S8B_SPECS):
+            for route in ("plain", "computed", "supplied-write_cog", "supplied-layers"):
+                for obs in (None, 64):
+                    for layout in ("YX", ("SYX", 2)):
+                        for dest in ("mem", "file"):
+                            yield ("s8b", si, route, obs, layout, dest)
+
+    return g
+
+
+def run_s8b(case):
+    _, si, route, obs, layout, dest = case
+    spec = S8B_SPECS[si]
+    tag = "unset" if spec == "unset" else f"{spec[0]}={spec[1]}:{spec[2]}"
+    r = R(outcome=f"s8b:{tag}:{route}:ovrblock{obs}:{dest}")
+    yx = (33, 50)
+    xx, data, A, exact, epsg, nodata, kw = build(yx, layout, "int16", "nu", "32633", "special", zeros=True)
+    if obs is not None:
+        kw["ovr_blocksize"] = obs
+    api = "write_cog_layers" if route == "supplied-layers" else "write_cog"
+    if route.startswith("supplied"):
+        ext, ovl, path, apik = sub_overviews(xx, layout, "int16", 2, zeros=True), "ext", f"layers:{dest}", api + "+overviews"
+    else:
+        ext, ovl, path, apik = None, ((2, 4) if route == "computed" else ()), ("2pass" if route == "computed" else "1pass") + f":{dest}", api
+    cls = mkcls(yx, layout, "nu", "32633", "int16", "special", "attr", path, apik, 16, ovl)
+    for k in cls:
+        cls[k] += f":caller-set:{tag}"
+    run_write(r, str(case), xx, data, layout, A, exact, epsg, nodata, dest=dest, api=api, ext=ext,
+              ovl=None if ext is not None else ovl, blocksize=16, cls=cls, ambient=spec, **kw)
+    return r
+
+
+# ---------------------------------------------------------------------------------------------------------
+# s9: every option through every entry point, on ONE instance in sequence, against a fresh reference
+# ---------------------------------------------------------------------------------------------------------
+def s9_options():
+    """name -> (image shape, writer options without blocksize default, number of supplied overviews, their container)"""
+    L = dict(overview_levels=[2, 4])
+    o = {
+        "base": ((33, 50), {}, 0, None),
+        "blocksize-default": ((33, 50), {"blocksize": None}, 0, None),
+        "blocksize32": ((33, 50), {"blocksize": 32}, 0, None),
+        "blocksize100": ((33, 50), {"blocksize": 100}, 0, None),
+        "levels-empty": ((33, 50), {"overview_levels": []}, 0, None),
+        "levels-none": ((33, 50), {"overview_levels": None}, 0, None),
+        "levels2": ((33, 50), {"overview_levels": [2]}, 0, None),
+        "levels-tuple": ((33, 50), {"overview_levels": (2, 4)}, 0, None),
+        "levels-default-512": ((520, 600), {}, 0, None),
+        "levels-empty-512": ((520, 600), {"overview_levels": []}, 0, None),
+        "ovr_blocksize64": ((133, 150), {**L, "ovr_blocksize": 64}, 0, None),
+        "ovr_blocksize256": ((133, 150), {**L, "ovr_blocksize": 256}, 0, None),
+        "resampling-nearest": ((33, 50), {**L, "overview_resampling": "nearest"}, 0, None),
+        "resampling-average": ((33, 50), {**L, "overview_resampling": "average"}, 0, None),
+        "resampling-bilinear": ((33, 50), {**L, "overview_resampling": "bilinear"}, 0, None),
+        "resampling-mode": ((33, 50), {**L, "overview_resampling": "mode"}, 0, None),
+        "windowed": ((33, 50), {"use_windowed_writes": True}, 0, None),
+        "windowed+levels": ((33, 50), {**L, "use_windowed_writes": True}, 0, None),
+        "intermediate-true": ((33, 50), {**L, "intermediate_compression": True}, 0, None),
+        "intermediate-str": ((33, 50), {**L, "intermediate_compression": "zstd"}, 0, None),
+        "intermediate-dict": ((33, 50), {**L, "intermediate_compression": {"compress": "lzw"}}, 0, None),
+        "compress-zstd": ((33, 50), {**L, "compress": "zstd"}, 0, None),
+        "zlevel9": ((33, 50), {"zlevel": 9}, 0, None),
+        "nodata-kwarg-0": ((33, 50), {**L, "nodata": 0}, 0, None),
+        "nodata-kwarg": ((33, 50), {**L, "nodata": -5}, 0, None),
+        "overviews-empty": ((33, 50), {}, 0, "list"),
+        "overviews1": ((33, 50), {}, 1, "list"),
+        "overviews2": ((33, 50), {}, 2, "list"),
+        "overviews2-tuple": ((33, 50), {}, 2, "tuple"),
+        "overviews2-512": ((520, 600), {}, 2, "list"),
+        "overviews+nodata-kwarg-0": ((33, 50), {"nodata": 0}, 2, "list"),
+        "overviews+windowed+intermediate": ((33, 50), {"use_windowed_writes": True, "intermediate_compression": True}, 2, "list"),
+        "overviews+ovr_blocksize64": ((133, 150), {"ovr_blocksize": 64}, 2, "list"),
+        "everything": ((133, 150), {"blocksize": 32, "ovr_blocksize": 64, "overview_levels": [2, 4], "overview_resampling": "average",
+                                    "use_windowed_writes": True, "intermediate_compression": "lzw", "compress": "zstd",
+                                    "nodata": -7}, 0, None),
+    }
+    return o
+
+
+S9_OPTS = s9_options()
+S9_NAMED = ("blocksize", "ovr_blocksize", "overviews", "overview_resampling", "overview_levels", "use_windowed_writes",
+            "intermediate_compression")  # to_cog's positional parameters, in order
+
+
+def signature(blob):
+    """What any reader can observe: decoded pixels of every level, georeferencing, nodata, IFD structure and encoding."""
+    h = hashlib.blake2b(digest_size=16)
+    with open_rio(blob) as src:
+        prof = (src.count, tuple(src.dtypes), src.height, src.width, tuple(src.transform)[:6],
+                src.crs.to_wkt() if src.crs else None, tuple(repr(v) for v in src.nodatavals),
+                tuple(tuple(src.overviews(i)) for i in src.indexes))
+        h.update(src.read().tobytes())
+        n = len(src.overviews(1))
+    for k in range(n):
+        with open_rio(blob, overview_level=k) as src:
+            h.update(src.read().tobytes())
+    with open_tiff(blob) as tf:
+        pages = tuple((p.imagelength, p.imagewidth, p.tilelength if p.is_tiled else 0, p.tilewidth if p.is_tiled else 0,
+                       int(p.compression), int(p.predictor), int(p.planarconfig), p.samplesperpixel) for p in tf.pages)
+    return dict(profile=prof, ifds=pages, pixels=h.hexdigest())
+
+
+def gen_s9(tier):
+    def g():
+        for name in S9_OPTS:
+            for layout in S3_LAYOUTS:
+                for prime in (False, True):
+                    yield ("s9", name, layout, prime)
+
+    return g
+
+
+def prime_lazies(xx):
+    """Read every lazily computed / cached view first (accessor state, GeoBox and CRS caches)."""
+    gb = xx.odc.geobox
+    _ = (xx.odc.crs, xx.odc.transform, xx.odc.spatial_dims, xx.odc.nodata, xx.odc.ydim, xx.odc.xdim, gb.extent, gb.boundingbox,
+         gb.footprint("EPSG:4326"), gb.geographic_extent, gb.crs.epsg, gb.crs.units, gb.resolution, gb.coordinates
+         if gb.axis_aligned else None, str(gb.crs), hash(gb))
+
+
+def run_s9(case):
+    _, name, layout, prime = case
+    yx, opts, n_ovr, container = S9_OPTS[name]
+    r = R(outcome=f"s9:{name}:{lk(layout)}:prime{int(prime)}")
+
+    def fresh():
+        xx, data, A, exact, epsg, nodata, _ = build(yx, layout, "int16", "shear", "32633", "special", zeros=True)
+        ext = sub_overviews(xx, layout, "int16", n_ovr, zeros=True) if container else None
+        return xx, ext, data, A, exact, epsg, nodata
+
+    def options(ext):
+        o = {"blocksize": 16, **copy.deepcopy(opts)}
+        if o["blocksize"] is None:
+            del o["blocksize"]
+        if ext is not None:
+            o["overviews"] = list(ext) if container == "list" else tuple(ext)
+        return o
+
+    # reference: a fresh array, never touched before, one call
+    xx0, ext0, data, A, exact, epsg, nd_attr = fresh()
+    ref = write_cog(xx0, ":mem:", **options(ext0))
+    want = bands_of(data, layout)
+    nd_want = opts["nodata"] if "nodata" in opts else nd_attr
+    bs = {"blocksize": 16, **opts}["blocksize"]
+    if ext0 is not None:
+        levels = [bands_of(o.data, layout).shape[1:] for o in ext0]
+    else:
+        ovl = opts.get("overview_levels", None)
+        levels = expected_levels(yx, None if ovl is None else tuple(ovl))
+    cls = mkcls(yx, layout, "shear", "32633", "int16", "special", "kwarg" if "nodata" in opts else "attr",
+                ("layers" if ext0 is not None else "2pass" if levels else "1pass") + ":mem", "write_cog", bs,
+                "ext" if ext0 is not None else opts.get("overview_levels", None) and tuple(opts["overview_levels"]) or (
+                    None if "overview_levels" not in opts or opts["overview_levels"] is None else ()))
+    for k in cls:
+        cls[k] += f":option-{name}"
+    if not isinstance(ref, bytes):
+        return r.fail(f"return:not-bytes:{cls['pix']}", f"{case}: reference call returned {type(ref).__name__}")
+    inspect(ref, want, A, exact, epsg, nd_want, levels, bs, r, f"{case} reference write_cog(':mem:')", cls,
+            ext_overviews=[bands_of(o.data, layout) for o in ext0] if ext0 else None, ovr_blocksize=opts.get("ovr_blocksize"))
+    ref_sig = None
+
+    # ONE shared instance through every entry point in sequence
+    xx, ext, *_ = fresh()
+    if prime:
+        prime_lazies(xx)
+        for o in ext or ():
+            prime_lazies(o)
+    inputs = [("geo_im", xx)] + [(f"overviews[{i}]", o) for i, o in enumerate(ext or ())]
+    before = {n_: snap(v) for n_, v in inputs}
+    td = tempfile.mkdtemp(prefix="vf-c15-")
+    try:
+        def to_file(fn):
+            def call(o):
+                path = os.path.join(td, f"f{len(os.listdir(td))}.tif")
+                out = fn(path, o)
+                if out is None or str(out) != path:
+                    return out
+                return Path(path).read_bytes()
+            return call
+
+        def positional(o):
+            extra = {k: v for k, v in o.items() if k not in S9_NAMED}
+            defaults = dict(use_windowed_writes=False, intermediate_compression=False)
+            return to_cog(xx, *[o.get(k, defaults.get(k)) for k in S9_NAMED], **extra)
+
+        def no_ov(o):
+            return {k: v for k, v in o.items() if k != "overviews"}
+
+        entries = [
+            ("write_cog:mem", lambda o: write_cog(xx, ":mem:", **o)),
+            ("to_cog", lambda o: to_cog(xx, **o)),
+            ("to_cog:positional", positional),
+            (".odc.to_cog", lambda o: xx.odc.to_cog(**o)),
+            (".odc.write_cog:mem", lambda o: xx.odc.write_cog(":mem:", **o)),
+            ("write_cog:file", to_file(lambda path, o: write_cog(xx, path, **o))),
+            (".odc.write_cog:file", to_file(lambda path, o: xx.odc.write_cog(Path(path), **o))),
+        ]
+        if ext is not None:
+            entries += [
+                ("write_cog_layers:mem", lambda o: write_cog_layers([xx, *ext], **no_ov(o))),
+                ("write_cog_layers:mem-explicit", lambda o: write_cog_layers((xx, *ext), ":mem:", **no_ov(o))),
+                ("write_cog_layers:file", to_file(lambda path, o: write_cog_layers([xx, *ext], path, **no_ov(o)))),
+            ]
+        entries.append(("write_cog:mem:again", lambda o: write_cog(xx, ":mem:", **o)))
+        for ename, fn in entries:
+            o = options(ext)
+            o_before = snap_kw(o)
+            state0 = gdal_state()
+            got = fn(o)
+            judge_side_effects(r, f"{case} via {ename}", f"{ename}:option-{name}", inputs, before, o, o_before, state0, gdal_state())
+            if gdal_state() != BASE_STATE:
+                scrub_gdal()
+            if not isinstance(got, bytes):
+                r.fail(f"return:wrong-type:{ename}:option-{name}", f"{case}: {ename} returned {got!r}")
+                continue
+            if got == ref:
+                continue
+            if ref_sig is None:
+                ref_sig = signature(ref)
+            sig = signature(got)
+            diff = [k for k in ref_sig if ref_sig[k] != sig[k]]
+            if diff:
+                detail = "; ".join(f"{k}: {sig[k]} vs reference {ref_sig[k]}" for k in diff)
+                r.fail(f"differential:{ename}:option-{name}",
+                       f"{case}: identical arguments through {ename} and through write_cog(fresh array, ':mem:') give different "
+                       f"files ({', '.join(diff)} differ): {detail[:500]}")
+    finally:
+        shutil.rmtree(td, ignore_errors=True)
+    return r
+
+
+# ---------------------------------------------------------------------------------------------------------
+# s10: nodata value x where / how it is given x every overview route x data that is (partly / wholly) nodata
+# ---------------------------------------------------------------------------------------------------------
+S10_ROUTES = ("none", "computed-explicit", "computed-default-512", "supplied-write_cog", "supplied-layers")
+
+
+def s10_nd(dtype):
+    out = [("none", "attr", "py")]
+    kinds = ["zero", "special"] + (["nan"] if np.dtype(dtype).kind == "f" else [])
+    for ndk in kinds:
+        for src, enc in (("attr", "py"), ("attr", "np"), ("attr", "float"), ("kwarg", "py"), ("kwarg", "np"), ("kwarg", "float"),
+                         ("both", "py")):
+            out.append((ndk, src, enc))
+    return out
+
+
+def gen_s10(tier):
+    dts = ("uint8", "float32") if tier == "quick" else DTYPES
+    patterns = ("all-nodata", "sprinkle") if tier == "quick" else ("ramp", "zeros", "all-nodata", "sprinkle")
+
+    def g():
+        for dtype in dts:
+            for ndk, src, enc in s10_nd(dtype):
+                for route in S10_ROUTES:
+                    for pattern in patterns:
+                        for dest in ("mem", "file"):
+                            yield ("s10", dtype, ndk, src, enc, route, pattern, dest)
+
+    return g
+
+
+def run_s10(case):
+    _, dtype, ndk, src, enc, route, pattern, dest = case
+    r = R(outcome=f"s10:{dtype}:{ndk}:{src}:{enc}:{route}:{pattern}:{dest}")
+    yx = (512, 520) if route == "computed-default-512" else (33, 50)
+    layout = ("SYX", 2) if route in ("computed-explicit", "supplied-layers") else "YX"
+    zeros = pattern == "zeros"
+    pat = None if zeros else pattern
+    xx, data, A, exact, epsg, nodata, kw = build(yx, layout, dtype, "nu", "32633", ndk, src, zeros=zeros, pattern=pat, nd_enc=enc)
+    api = "write_cog_layers" if route == "supplied-layers" else "write_cog"
+    ext = None
+    if route.startswith("supplied"):
+        ext = sub_overviews(xx, layout, dtype, 2, zeros=zeros, pattern=pat, nodata=nodata)
+        ovl, path, apik = "ext", f"layers:{dest}", api + "+overviews"
+    else:
+        ovl = {"none": (), "computed-explicit": (2, 4), "computed-default-512": None}[route]
+        path, apik = ("1pass" if route == "none" else "2pass") + f":{dest}", api
+    cls = mkcls(yx, layout, "nu", "32633", dtype, ndk, f"{src}-{enc}", f"{route}:{dest}", apik, 16, ovl)
+    cls["pix"] += f":data-{pattern}"
+    run_write(r, str(case), xx, data, layout, A, exact, epsg, nodata, dest=dest, api=api, ext=ext,
+              ovl=None if ext is not None else ovl, blocksize=16, cls=cls, use_windowed_writes=(pattern == "sprinkle"), **kw)
+    return r
+
+
+# ---------------------------------------------------------------------------------------------------------
+# s11: two writes in sequence: same destination (overwrite) / different destinations / memory and file mixed
+# ---------------------------------------------------------------------------------------------------------
+S11_ROUTES = ("plain", "computed", "layers")
+
+
+def gen_s11(tier):
+    def g():
+        for r1 in S11_ROUTES:
+            for r2 in S11_ROUTES:
+                for rel in ("same-overwrite", "different", "mem-then-file", "file-then-mem", "mem-then-mem"):
+                    for layout in ("YX", ("SYX", 2)):
+                        yield ("s11", r1, r2, rel, layout)
+
+    return g
+
+
+def run_s11(case):
+    _, r1, r2, rel, layout = case
+    r = R(outcome=f"s11:{r1}:{r2}:{rel}")
+    first = dict(yx=(17, 31), dtype="int16", tk="nu", crs="32633", ndk="special", off=0)
+    second = dict(yx=(20, 13), dtype="uint8", tk="rot", crs="3857", ndk="zero", off=9)
+
+    def prep(d, route):
+        xx, data, A, exact, epsg, nodata, kw = build(d["yx"], layout, d["dtype"], d["tk"], d["crs"], d["ndk"], off=d["off"], zeros=True)
+        ext = sub_overviews(xx, layout, d["dtype"], 1, zeros=True) if route == "layers" else None
+        ovl = (2,) if route == "computed" else ()
+        return dict(xx=xx, data=data, A=A, exact=exact, epsg=epsg, nodata=nodata, ext=ext, ovl=ovl, d=d, route=route)
+
+    def write(w, dst, **kw):
+        if w["ext"] is not None:
+            return write_cog_layers([w["xx"], *w["ext"]], dst, blocksize=16, **kw)
+        return write_cog(w["xx"], dst, blocksize=16, overview_levels=list(w["ovl"]), **kw)
+
+    def judge(w, blob, which):
+        d = w["d"]
+        cls = mkcls(d["yx"], layout, d["tk"], d["crs"], d["dtype"], d["ndk"], "attr", f"{w['route']}", "write_cog", 16,
+                    "ext" if w["ext"] is not None else w["ovl"])
+        for k in cls:
+            cls[k] += f":sequence-{which}:{rel}"
+        levels = [bands_of(o.data, layout).shape[1:] for o in w["ext"]] if w["ext"] is not None else expected_levels(d["yx"], w["ovl"])
+        inspect(blob, bands_of(w["data"], layout), w["A"], w["exact"], w["epsg"], w["nodata"], levels, 16, r, f"{case} {which} write",
+                cls, ext_overviews=[bands_of(o.data, layout) for o in w["ext"]] if w["ext"] is not None else None)
+
+    a, b = prep(first, r1), prep(second, r2)
+    td = tempfile.mkdtemp(prefix="vf-c15-")
+    try:
+        p1, p2 = os.path.join(td, "one.tif"), os.path.join(td, "two.tif")
+        d1 = ":mem:" if rel.startswith("mem") else p1
+        d2 = {"same-overwrite": p1, "different": p2, "mem-then-file": p2, "file-then-mem": ":mem:", "mem-then-mem": ":mem:"}[rel]
+        o1 = write(a, d1)
+        first_bytes = o1 if d1 == ":mem:" else Path(p1).read_bytes()
+        o2 = write(b, d2, **({"overwrite": True} if rel == "same-overwrite" else {}))
+        second_blob = o2 if d2 == ":mem:" else d2
+        if d2 != ":mem:" and (o2 is None or str(o2) != d2):
+            return r.fail(f"return:path:sequence:{rel}", f"{case}: second write returned {o2!r}")
+        judge(b, second_blob, "second")
+        if rel != "same-overwrite":
+            if d1 != ":mem:" and Path(p1).read_bytes() != first_bytes:
+                r.fail(f"sequence:first-destination-changed:{rel}:{r1}-{r2}", f"{case}: {p1} changed while writing {d2}")
+            judge(a, first_bytes, "first")
+        left = sorted(set(os.listdir(td)) - {"one.tif", "two.tif"})
+        if left:
+            r.fail(f"sequence:stray-files:{rel}", f"{case}: {left}")
+    finally:
+        shutil.rmtree(td, ignore_errors=True)
+    return r
+
+
+# ---------------------------------------------------------------------------------------------------------
+# s12: orientations / pixel-size extremes / origins / near-aligned transforms x CRS encodings x long and tiny rasters
+# ---------------------------------------------------------------------------------------------------------
+S12_TKINDS = ("nu", "nu-r", "rot", "shear", "south-up", "mirror-x", "rot180", "nonsquare", "tiny", "huge", "halfpx", "near-int",
+              "offgrid", "scale-below-1", "rot0.05", "shear9e-4", "near-aligned-out", "near-aligned-in")
+S12_PENDING = ()
+S12_SHAPES = ((1, 1), (1, 4), (4, 1), (17, 31), (2, 2000), (2000, 2))
+S12_ROUTES = ("1pass", "2pass", "layers")
+INCLUDE_PENDING = True
+
+
+def gen_s12(tier):
+    tks = S12_TKINDS + (S12_PENDING if INCLUDE_PENDING else ())
+
+    def g():
+        if tier == "thorough":
+            for tk in tks:
+                for crs in CRSS:
+                    for spec in CRS_SPECS:
+                        for yx in S12_SHAPES:
+                            for route in S12_ROUTES:
+                                yield ("s12", tk, crs, spec, yx, route)
+            return
+        for tk in tks:  # product A: transforms x CRS x shapes x routes
+            for crs in CRSS:
+                for yx in S12_SHAPES:
+                    for route in S12_ROUTES:
+                        yield ("s12", tk, crs, "str", yx, route)
+        for tk in ("nu", "rot"):  # product B: CRS encodings
+            for crs in CRSS:
+                for spec in CRS_SPECS[1:]:
+                    for yx in ((1, 4), (17, 31)):
+                        for route in S12_ROUTES:
+                            yield ("s12", tk, crs, spec, yx, route)
+
+    return g
+
+
+def run_s12(case):
+    _, tk, crs, spec, yx, route = case
+    r = R(outcome=f"s12:{tk}:{crs}:{spec}:{shape_class(yx)}{'-long' if max(yx) > 64 else ''}:{route}")
+    if route != "1pass" and max(yx) < 2:
+        r.outcome += ":single-pixel-no-overview"
+        route = "1pass"
+    layout = "YX" if route != "layers" else ("SYX", 2)
+    xx, data, A, exact, epsg, nodata, kw = build(yx, layout, "uint8", tk, crs, "special", spec=spec)
+    ext = sub_overviews(xx, layout, "uint8", 1) if route == "layers" else None
+    ovl = "ext" if ext is not None else ((2,) if route == "2pass" else ())
+    cls = mkcls(yx, layout, tk, crs, "uint8", "special", "attr", route, "write_cog", 16, ovl)
+    cls["geo"] = f"{tclass(tk)}:{shape_class(yx)}{'-long' if max(yx) > 64 else ''}:{route}"
+    cls["crs"] = f"{crs}:given-as-{spec}:{route}"
+    run_write(r, str(case), xx, data, layout, A, exact, epsg, nodata, dest="mem", ext=ext, ovl=None if ext is not None else ovl,
+              blocksize=16, cls=cls, **kw)
+    return r
+
+
+# ---------------------------------------------------------------------------------------------------------
+# s13: overview levels larger than the image / strip-like images
+# ---------------------------------------------------------------------------------------------------------
+S13_SHAPES = ((1, 1), (1, 4), (2, 2), (3, 3), (17, 31), (1, 600), (513, 3))
+S13_LEVELS = ((2,), (4,), (2, 4), (2, 4, 8), (32,), (64,), (2, 4, 8, 16, 32), (1024,))
+
+
+def gen_s13(tier):
+    def g():
+        for yx in S13_SHAPES:
+            for ovl in S13_LEVELS:
+                for layout in ("YX", ("SYX", 2)):
+                    for dest in ("mem", "file"):
+                        yield ("s13", yx, ovl, layout, dest)
+
+    return g
+
+
+def run_s13(case):
+    _, yx, ovl, layout, dest = case
+    sizes = expected_levels(yx, ovl)
+    n11 = sum(1 for sz in sizes if sz == (1, 1)) + (1 if tuple(yx) == (1, 1) else 0)
+    # GDAL itself refuses a request that would hold more than one 1x1 level ("Too many overviews levels of 1x1 dimension")
+    over = "gdal-limit" if n11 > 1 else "beyond-image" if max(ovl) > min(yx) else "within-image"
+    r = R(outcome=f"s13:{shape_class(yx)}:{over}:{dest}")
+    xx, data, A, exact, epsg, nodata, kw = build(yx, layout, "uint8", "nu", "32633", "special")
+    cls = mkcls(yx, layout, "nu", "32633", "uint8", "special", "attr", f"2pass:{dest}", "write_cog", 16, ovl)
+    cls["st"] += f":{over}"
+    run_write(r, str(case), xx, data, layout, A, exact, epsg, nodata, dest=dest, ovl=ovl, blocksize=16, cls=cls,
+              may_refuse=(rasterio.errors.OverviewCreationError,) if over == "gdal-limit" else (), **kw)
+    return r
+
+
+# ---------------------------------------------------------------------------------------------------------
+# s14: block sizes: zero, tiny, not multiples of 16, far larger than the image, other number types
+# ---------------------------------------------------------------------------------------------------------
+S14_BLOCKS = {"0": 0, "1": 1, "15": 15, "17": 17, "31": 31, "250": 250, "1000": 1000, "4096": 4096, "np.int64(32)": np.int64(32),
+              "np.int32(100)": np.int32(100), "16.0": 16.0}
+
+
+def gen_s14(tier):
+    def g():
+        for b in S14_BLOCKS:
+            for yx in ((1, 1), (17, 31), (33, 50), (64, 48)):
+                for ovl in ((), (2,)):
+                    for layout in ("YX", ("YXS", 3)):
+                        for windowed in (False, True):
+                            for dest in ("mem", "file"):
+                                yield ("s14", b, yx, ovl, layout, windowed, dest)
+
+    return g
+
+
+def run_s14(case):
+    _, b, yx, ovl, layout, windowed, dest = case
+    bs = S14_BLOCKS[b]
+    r = R(outcome=f"s14:block={b}:{shape_class(yx)}:ovr{len(ovl)}:win{int(windowed)}:{dest}")
+    xx, data, A, exact, epsg, nodata, kw = build(yx, layout, "int16", "nu", "32633", "special", zeros=True)
+    cls = mkcls(yx, layout, "nu", "32633", "int16", "special", "attr", ("2pass" if ovl else "1pass") + f":{dest}", "write_cog", b, ovl)
+    cls["pix"] += f":win{int(windowed)}"
+    refuse = REFUSALS if bs == 0 else ()
+    run_write(r, str(case), xx, data, layout, A, exact, epsg, nodata, dest=dest, ovl=ovl, blocksize=bs, cls=cls,
+              use_windowed_writes=windowed, may_refuse=refuse, **kw)
+    return r
+
+
+# ---------------------------------------------------------------------------------------------------------
+# s15: the rest of the dtype menu: must read back identical when accepted; a refusal is not a violation
+# ---------------------------------------------------------------------------------------------------------
+REFUSALS = (TypeError, ValueError, rasterio.errors.RasterioError, rasterio.errors.RasterioIOError, rasterio._err.CPLE_BaseError)
+S15_DTYPES = ("uint32", "int64", "uint64", "float16", "complex64", "complex128", "bool")
+
+
+def gen_s15(tier):
+    def g():
+        for dtype in S15_DTYPES:
+            for ndk in ("none", "special", "zero"):
+                for route in ("1pass", "2pass", "layers"):
+                    for layout in ("YX", ("SYX", 2), ("YXS", 3)):
+                        for dest in ("mem", "file"):
+                            yield ("s15", dtype, ndk, route, layout, dest)
+
+    return g
+
+
+def run_s15(case):
+    _, dtype, ndk, route, layout, dest = case
+    r = R(outcome=f"s15:{dtype}:{ndk}:{route}:{dest}")
+    yx = (17, 31)
+    if np.dtype(dtype).kind in "cb" and ndk == "special":
+        ndk = "none"
+    xx, data, A, exact, epsg, nodata, kw = build(yx, layout, dtype, "nu", "32633", ndk)
+    ext = sub_overviews(xx, layout, dtype, 1) if route == "layers" else None
+    ovl = "ext" if ext is not None else ((2,) if route == "2pass" else ())
+    cls = mkcls(yx, layout, "nu", "32633", dtype, ndk, "attr", f"{route}:{dest}", "write_cog", 16, ovl)
+    run_write(r, str(case), xx, data, layout, A, exact, epsg, nodata, dest=dest, ext=ext, ovl=None if ext is not None else ovl,
+              blocksize=16, cls=cls, may_refuse=REFUSALS, **kw)
+    return r
+
+
+# ---------------------------------------------------------------------------------------------------------
 # s7: the block-size / layout helpers on a complete small integer domain
 # ---------------------------------------------------------------------------------------------------------
 S7_N = 600
@@ -838,7 +1624,8 @@ def gen_s7(tier):
             yield ("norm", b)
         for yx in S1_SHAPES:
             for layout in S1_LAYOUTS:
-                yield ("yaxis", yx, layout)
+                if layout == "YX" or layout[0] != "TYX":
+                    yield ("yaxis", yx, layout)
 
     return g
 
@@ -913,6 +1700,27 @@ def slices(tier):
         e1.Slice("s8-ambient-gdal-config", gen_s8(tier), run_s8,
                  "ambient GDAL_DISABLE_READDIR_ON_OPEN {unset, EMPTY_DIR, TRUE, FALSE} (outer rasterio.Env during the write, readers "
                  "outside it) x shapes x layouts x windowed x destination x {no / computed overviews, supplied overviews x API x count}"),
+        e1.Slice("s8b-caller-gdal-options", gen_s8b(tier), run_s8b,
+                 "GDAL options the writers set themselves, pre-set by the caller {outer Env, process environment} x route x "
+                 "ovr_blocksize x layout x destination; all of them back to the caller's value after the call", shards=32),
+        e1.Slice("s9-entry-points", gen_s9(tier), run_s9,
+                 "every option (one at a time and combined) x layouts x {fresh, lazily primed} - through write_cog, to_cog "
+                 "(keyword / positional), .odc.to_cog, .odc.write_cog, file and memory, write_cog_layers - on ONE instance in sequence; "
+                 "each result must equal a single write_cog(':mem:') of a fresh array; inputs unchanged"),
+        e1.Slice("s10-nodata-routes", gen_s10(tier), run_s10,
+                 "dtype x nodata {none, 0, special, NaN} x {attr, kwarg, both} x {python, numpy, float} x every overview route x "
+                 "data {all nodata, isolated + whole-tile nodata + NaN} x destination"),
+        e1.Slice("s11-sequences", gen_s11(tier), run_s11,
+                 "two writes in sequence: route x route x {same destination + overwrite, different, memory/file mixed} x layout", shards=32),
+        e1.Slice("s12-georef", gen_s12(tier), run_s12,
+                 "orientations / pixel-size extremes / origins / near-aligned transforms x CRS x CRS encodings (incl. no EPSG code) x "
+                 "shapes (single pixel ... 2000 px strips) x route"),
+        e1.Slice("s13-oversized-levels", gen_s13(tier), run_s13,
+                 "overview levels up to far beyond the image x tiny and strip-like shapes x layout x destination", shards=32),
+        e1.Slice("s14-blocksizes", gen_s14(tier), run_s14,
+                 "blocksize {0, 1, 15, 17, 31, 250, 1000, 4096, numpy ints, float} x shapes x overviews x layout x windowed x destination"),
+        e1.Slice("s15-dtypes-extra", gen_s15(tier), run_s15,
+                 "uint32 / int64 / uint64 / float16 / complex / bool x nodata x route x layout x destination (refusal allowed)", shards=32),
         e1.Slice("s7-helpers", gen_s7(tier), run_s7,
                  "adjust_blocksize on [1,600]x[0,600], norm_blocksize on [1,130]^2, yaxis_from_shape on shapes x layouts", shards=32),
     ]
